@@ -803,6 +803,14 @@ F('C20', "lazy-position-dependent-cache", PG, "ConvexPolygon.area",
   '    area = 0\n    for i in range(len(self.points)):\n        index_0 = i\n        if i == len(self.points) - 1:\n            index_1 = 0\n        else:\n            index_1 = i + 1\n        area += get_triangle_area(self.center_point, self.points[index_0], self.points[index_1])\n    return area',
   '    try:\n        return self._area\n    except AttributeError:\n        pass\n    area = 0\n    for i in range(len(self.points)):\n        index_0 = i\n        if i == len(self.points) - 1:\n            index_1 = 0\n        else:\n            index_1 = i + 1\n        area += get_triangle_area(self.center_point, self.points[index_0], self.points[index_1])\n    self._area = area + 0 * self.center_point.pv().length()\n    return self._area', rule='R20.1',
   note="the cached value depends on the position (centre distance from the origin) and move() does not drop it")
+N('C07', "lazy-area-cache-getattr", PG, "ConvexPolygon.area",
+  '    area = 0\n    for i in range(len(self.points)):\n        index_0 = i\n        if i == len(self.points) - 1:\n            index_1 = 0\n        else:\n            index_1 = i + 1\n        area += get_triangle_area(self.center_point, self.points[index_0], self.points[index_1])\n    return area',
+  '    cached = getattr(self, "_area", None)\n    if cached is not None:\n        return cached\n    area = 0\n    for i in range(len(self.points)):\n        index_0 = i\n        if i == len(self.points) - 1:\n            index_1 = 0\n        else:\n            index_1 = i + 1\n        area += get_triangle_area(self.center_point, self.points[index_0], self.points[index_1])\n    self._area = area\n    return area',
+  note="the same memo read with getattr(self, '_area', None): a literal attribute name is an ordinary attribute read")
+N('C20', "lazy-area-cache-getattr", PG, "ConvexPolygon.area",
+  '    area = 0\n    for i in range(len(self.points)):\n        index_0 = i\n        if i == len(self.points) - 1:\n            index_1 = 0\n        else:\n            index_1 = i + 1\n        area += get_triangle_area(self.center_point, self.points[index_0], self.points[index_1])\n    return area',
+  '    cached = getattr(self, "_area", None)\n    if cached is not None:\n        return cached\n    area = 0\n    for i in range(len(self.points)):\n        index_0 = i\n        if i == len(self.points) - 1:\n            index_1 = 0\n        else:\n            index_1 = i + 1\n        area += get_triangle_area(self.center_point, self.points[index_0], self.points[index_1])\n    self._area = area\n    return area',
+  note="the same memo read with getattr(self, '_area', None)")
 # =========================================================================== positive controls for rules with no instance today
 # (the handlers contain no numeric pre-filter on the pinned tree; these variants must be reported -- the quick tier runs them
 # too, so that the rule cannot pass vacuously, cf. CONTROLS below)
